@@ -612,6 +612,43 @@ def thResolution (cl : List Tm) (sizes : List Nat) (ps : List Seq) : Except Err 
       | none => .error .index
       | some concl => if resAccept concl cl then .ok res else .error .verit
 
+-- ------------------------------------------------------------------ equality / arithmetic shape rules
+
+/-- verit_eq_reflexive -/
+def eqReflexive (cl : List Tm) : Except Err Seq :=
+  match cl with
+  | goal :: _ =>
+    match goal with
+    | mkIff l r | mkEq l r => if l == r then .ok ⟨[], goal⟩ else .error .verit
+    | _ => .error .verit
+  | [] => .error .index
+
+/-- verit_la_disequality: `t1 = t2 | ~(t1 <= t2) | ~(t2 <= t1)` given as ONE disjunction -/
+def laDisequality (cl : List Tm) : Except Err Seq :=
+  match cl with
+  | [goal] =>
+    match stripDisj goal with
+    | [e, mkNot (mkLe a1 a2), mkNot (mkLe b1 b2)] =>
+      match e with
+      | mkIff t1 t2 | mkEq t1 t2 =>
+        if t1 == a1 && t1 == b2 && t2 == a2 && t2 == b1 then .ok ⟨[], goal⟩ else .error .verit
+      | _ => .error .verit
+    | _ => .error .verit
+  | _ => .error .verit
+
+/-- verit_la_rw_eq: `(t = u) <--> (t <= u) & (u <= t)` -/
+def laRwEq (cl : List Tm) : Except Err Seq :=
+  match cl with
+  | [goal] =>
+    match goal with
+    | mkIff lhs rhs | mkEq lhs rhs =>
+      match lhs, rhs with
+      | mkEq t u, mkAnd (mkLe a1 a2) (mkLe b1 b2) | mkIff t u, mkAnd (mkLe a1 a2) (mkLe b1 b2) =>
+        if t == a1 && t == b2 && u == a2 && u == b1 then .ok ⟨[], goal⟩ else .error .verit
+      | _, _ => .error .verit
+    | _ => .error .verit
+  | _ => .error .verit
+
 /-- the tier-1 rules of the clause fragment (propositional rules and resolution) -/
 inductive Rule where
   | notOr
@@ -652,6 +689,9 @@ inductive Rule where
   | iteNeg2
   | falseRule
   | thResolution
+  | eqReflexive
+  | laDisequality
+  | laRwEq
   deriving DecidableEq, Repr
 
 def Rule.ofName : String → Option Rule
@@ -693,6 +733,9 @@ def Rule.ofName : String → Option Rule
   | "verit_ite_neg2" => some .iteNeg2
   | "verit_false" => some .falseRule
   | "verit_th_resolution" => some .thResolution
+  | "verit_eq_reflexive" => some .eqReflexive
+  | "verit_la_disequality" => some .laDisequality
+  | "verit_la_rw_eq" => some .laRwEq
   | _ => none
 
 def Rule.name : Rule → String
@@ -734,8 +777,11 @@ def Rule.name : Rule → String
   | .iteNeg2 => "verit_ite_neg2"
   | .falseRule => "verit_false"
   | .thResolution => "verit_th_resolution"
+  | .eqReflexive => "verit_eq_reflexive"
+  | .laDisequality => "verit_la_disequality"
+  | .laRwEq => "verit_la_rw_eq"
 
-def Rule.all : List Rule := [.notOr, .notAnd, .andRule, .orRule, .impliesRule, .notImplies1, .notImplies2, .equiv1, .equiv2, .notEquiv1, .notEquiv2, .ite1, .ite2, .notIte1, .notIte2, .contraction, .notNot, .andPos, .andNeg, .orPos, .orNeg, .impliesPos, .impliesNeg1, .impliesNeg2, .equivPos1, .equivPos2, .equivNeg1, .equivNeg2, .xorPos1, .xorPos2, .xorNeg1, .xorNeg2, .itePos1, .itePos2, .iteNeg1, .iteNeg2, .falseRule, .thResolution]
+def Rule.all : List Rule := [.notOr, .notAnd, .andRule, .orRule, .impliesRule, .notImplies1, .notImplies2, .equiv1, .equiv2, .notEquiv1, .notEquiv2, .ite1, .ite2, .notIte1, .notIte2, .contraction, .notNot, .andPos, .andNeg, .orPos, .orNeg, .impliesPos, .impliesNeg1, .impliesNeg2, .equivPos1, .equivPos2, .equivNeg1, .equivNeg2, .xorPos1, .xorPos2, .xorNeg1, .xorNeg2, .itePos1, .itePos2, .iteNeg1, .iteNeg2, .falseRule, .thResolution, .eqReflexive, .laDisequality, .laRwEq]
 
 /-- `eval` of the macro registered under the rule name; `sizes` is only read by resolution -/
 def evalRule : Rule → List Tm → List Nat → List Seq → Except Err Seq
@@ -777,6 +823,9 @@ def evalRule : Rule → List Tm → List Nat → List Seq → Except Err Seq
   | .iteNeg2, cl, _, _ => Holpy.C18.iteNeg2 cl
   | .falseRule, cl, _, _ => Holpy.C18.falseRule cl
   | .thResolution, cl, sizes, ps => Holpy.C18.thResolution cl sizes ps
+  | .eqReflexive, cl, _, _ => Holpy.C18.eqReflexive cl
+  | .laDisequality, cl, _, _ => Holpy.C18.laDisequality cl
+  | .laRwEq, cl, _, _ => Holpy.C18.laRwEq cl
 
 /-- What well-typedness of the instance gives and the model cannot see: in `not_equiv2` and
 `equiv_neg1` the equivalence is `equals` at type bool (its sides are clause literals). -/
@@ -786,6 +835,12 @@ def wellKinded : Rule → List Tm → List Seq → Bool
     | _ => true
   | .equivNeg1, e :: _, _ => match e with
     | mkEq _ _ => false
+    | _ => true
+  | .laDisequality, [goal], _ => match stripDisj goal with   -- the compared terms are numbers: `equals` is not at type bool
+    | mkIff _ _ :: _ => false
+    | _ => true
+  | .laRwEq, [goal], _ => match goal with
+    | mkIff (mkIff _ _) _ | mkEq (mkIff _ _) _ => false
     | _ => true
   | _, _, _ => true
 
